@@ -468,6 +468,13 @@ func runC10(c c10Case) vh.Result {
 			for _, q := range firmQ {
 				cnt[q.payload]--
 			}
+			// the N oldest stanzas "sent on the session" are the N oldest on the wire: the held order must be the wire order
+			for i := range got {
+				if got[i] != firmQ[i].payload {
+					res.Fail("queue-order-differs-from-wire", "step %d: after %d concurrent sends held entry %d is %s but stanza %d on the wire is %s: a partial acknowledgement would discard the wrong stanza", step, total, i, trunc(got[i], 70), i, trunc(firmQ[i].payload, 70))
+					break
+				}
+			}
 			bad := false
 			for k, v := range cnt {
 				if v != 0 {
@@ -506,7 +513,7 @@ func runC10(c c10Case) vh.Result {
 
 var c10 = vh.Define(&vh.Def[c10Case]{
 	Property: "C10", Name: "smqueue",
-	Rule: "outbound histories of 1-14 operations over Send(message), SendRaw(stanza), SendIQ, Send(SMRequest), <r/> from the peer (answered through Send), <a h=N/> from the peer with N drawn relative to the number R of stanzas the peer has received (R, R-k, R+k, 0, small absolute = stale or repeated) and bursts of 2-6 goroutines x 1-8 concurrent Send/SendRaw; real Client with stream management against the scripted peer, which records every element in the order received (wire truth; a retransmission is a new wire stanza); model: after <a h=N/> the entries with wire index <= N are discarded, the rest must arrive again in order followed by exactly one <r/> (nothing at all when nothing is left), and the client's queue (Session.SMState.UnAckQueue) must equal the unacknowledged wire stanzas after every step; <r/> and <a/> are never held; after a burst the queue is compared as a multiset; non-trivial = >= 2 sends with a partial acknowledgement or a server <r/>, or a stale / too-large acknowledgement",
+	Rule: "outbound histories of 1-14 operations over Send(message), SendRaw(stanza), SendIQ, Send(SMRequest), <r/> from the peer (answered through Send), <a h=N/> from the peer with N drawn relative to the number R of stanzas the peer has received (R, R-k, R+k, 0, small absolute = stale or repeated) and bursts of 2-6 goroutines x 1-8 concurrent Send/SendRaw; real Client with stream management against the scripted peer, which records every element in the order received (wire truth; a retransmission is a new wire stanza); model: after <a h=N/> the entries with wire index <= N are discarded, the rest must arrive again in order followed by exactly one <r/> (nothing at all when nothing is left), and the client's queue (Session.SMState.UnAckQueue) must equal the unacknowledged wire stanzas after every step; <r/> and <a/> are never held; after a burst the queue must hold exactly the wire stanzas in wire order; non-trivial = >= 2 sends with a partial acknowledgement or a server <r/>, or a stale / too-large acknowledgement",
 	Quick: 1200, Thorough: 40000, Journal: true,
 	Gen: genC10, Run: runC10,
 })
